@@ -43,6 +43,7 @@ MIN_REACH = {
     "harvesters_with_memory_before_the_other_session_wrote": {"quick": 20, "thorough": 80},
     "reaps_of_crops_with_surplus_falsy_results": {"quick": 40, "thorough": 150},
     "reaps_with_warnings_turned_into_errors": {"quick": 100, "thorough": 300},
+    "harvester_reaps_naming_a_merge_policy": {"quick": 30, "thorough": 100},
 }
 TIME_BUDGET = {"quick": 400, "thorough": 3400}
 
@@ -252,6 +253,10 @@ def run_case(ctx, case):
     if case.get("nosync"):
         opts["sync"] = False
         ctx.count("unsynced_farmer_reaps")
+    elif kind == "harvester" and fail != "conflict" and case["idx"] % 3 == 1:
+        # the merge policy named at the reap (nothing conflicts here: it changes nothing about what is delivered or kept)
+        opts["overwrite"] = bool(case["idx"] % 2)
+        ctx.count("harvester_reaps_naming_a_merge_policy")
     sig = {"api": "reap", "farmer": kind, "fail": fail, "clean_up": str(case["clean_up"]), "allow_incomplete": case["allow_incomplete"],
            "wait": case["wait"]}
     order = Order()
